@@ -249,6 +249,52 @@ def run(ctx):
                                   % (rdt, dray, ndt_, nvec, out[1].tolist(), want.tolist()),
                                   {'d': dray, 'n': nvec, 'ray_dtype': rdt, 'normal_dtype': ndt_, 'kind': 'dtype_combination_refract'},
                                   {'api': 'torch', 'fn': 'refract', 'what': 'dtype_combination'})
+    # ---------------- the same laws when the caller's program runs under a global setting of torch: CPU autocast (a mixed-precision training step that contains
+    # the ray tracer), default dtype float64, grad mode off.  reflect / refract are element-wise arithmetic: float32 rays come back as on the default settings.
+    from ..lib import settings as ST
+    for sname in ("torch.autocast('cpu')", 'torch.set_default_dtype(torch.float64)', 'torch.set_grad_enabled(False)'):
+        for bs in (1, 7, 41):
+            for nlen_s in (1.0, 3.5, 0.2):
+                ds = np.array([[rng.gauss(0, 1) for _ in range(3)] for _ in range(bs)])
+                ds = ds / np.linalg.norm(ds, axis=1, keepdims=True)
+                ns = np.array([[rng.gauss(0, 1) for _ in range(3)] for _ in range(bs)])
+                ns = nlen_s * ns / np.linalg.norm(ns, axis=1, keepdims=True)
+                ns[np.sum(ds * ns, axis=1) < 0] *= -1.0
+                keep_rows = np.abs(np.sum(ds * ns, axis=1)) / nlen_s > 0.2
+                ds, ns = ds[keep_rows], ns[keep_rows]
+                if not len(ds):
+                    continue
+                rays_s = torch.tensor(np.stack([np.zeros_like(ds), ds], axis=1), dtype=torch.float32)
+                nrms_s = torch.tensor(np.stack([np.ones_like(ns), ns], axis=1), dtype=torch.float32)
+                exact = ds - 2 * np.sum(ds * ns, axis=1, keepdims=True) / np.sum(ns * ns, axis=1, keepdims=True) * ns
+                ctx.case(('global_setting', sname, bs, nlen_s), True)
+                ctx.count('global_setting/' + sname)
+                rec = {'kind': 'global_setting', 'setting': sname, 'd': ds.tolist(), 'n': ns.tolist()}
+                try:
+                    with ST.SETTINGS[sname]():
+                        out = LR.reflect(rays_s.clone(), nrms_s.clone()).detach().float().numpy().astype(np.float64).reshape(-1, 2, 3)
+                        with time_limit(30.0):
+                            outr = LR.refract(rays_s.clone(), nrms_s.clone(), 1.0, 1.5).detach().float().numpy().astype(np.float64).reshape(-1, 2, 3)
+                except CallTimeout:
+                    ctx.note('refract did not return within 30 s under %s (termination is decided by C12)' % sname)
+                    continue
+                except Exception:
+                    ctx.count('global_setting/rejected under ' + sname)
+                    continue
+                err = float(np.max(np.abs(out[:, 1] - exact)))
+                if err > 5e-4:
+                    ctx.violation('torch reflect with %s in force: the reflected directions of %d float32 rays (normals of length %g) are off the mirror image by %.3g'
+                                  % (sname, len(ds), nlen_s, err), rec, {'api': 'torch', 'fn': 'reflect', 'what': 'global_setting', 'setting': sname})
+                    break
+                mu_ = 1.0 / 1.5
+                nu_ = ns / nlen_s
+                cosi_ = np.sum(ds * nu_, axis=1, keepdims=True)
+                wantr = mu_ * ds + (np.sqrt(1 - mu_ * mu_ * (1 - cosi_ * cosi_)) - mu_ * cosi_) * nu_
+                errr = float(np.nanmax(np.abs(outr[:, 1] - wantr)))
+                if errr > 3e-2:
+                    ctx.violation('torch refract (air to glass) with %s in force: the refracted directions of %d float32 rays are off Snell\'s law by %.3g'
+                                  % (sname, len(ds), errr), rec, {'api': 'torch', 'fn': 'refract', 'what': 'global_setting', 'setting': sname})
+                    break
     # ---------------- mixed batches: one ray beyond the critical angle (flagged NaN) must not spoil the others of the same call.
     # Run under the watchdog (a non-returning call is C12's subject, not judged here).
     from ..lib.watchdog import Watchdog
